@@ -10,13 +10,16 @@ out-of-range indices never corrupt the set.*
 All theorems are about `Model/C39.lean` + `Model/C39Merkle.lean` (the code of
 `tm2/pkg/bft/types/part_set.go` and the simple Merkle tree it uses) and hold
 for EVERY hash function `H`; where the shape of hashes matters the hypothesis
-is `FixedLen H n` (all outputs have the same length `n > 0` — true of SHA-256
+is `FixedLen H n` (all outputs have the same length `n` — true of SHA-256
 with `n = 32`; not a hardness assumption).  Collision resistance is never
 assumed: soundness is stated with an explicit, computed collision as the
 alternative.
 
-Finding kept visible (`strict_reject_*`): a set created from a header whose
-hash is EMPTY accepts parts with malformed proofs (`bytes.Equal(nil, [])`).
+History: until /repo commit 96b4d2262f (`fix: SimpleProof.Verify rejects proofs whose position
+is invalid instead of matching a nil root`) a set created from a header whose hash is EMPTY accepted
+parts with malformed proofs (`bytes.Equal(nil, [])`); this property carried it as a finding with a
+`…_partial` / `…_counterexample` pair.  With the fix the clause is the plain theorem
+`strict_reject`, and the old witness is pinned as `nilroot_witness_rejected` and in the corpus.
 -/
 namespace GnoVerif.C39
 
@@ -283,7 +286,7 @@ example : ∃ (s : PartSet) (p : Part), s.parts.length = s.total ∧ p.validateB
 /-- If a set carrying the block's header accepts a part, the part's bytes are the block's bytes
 for that index — or `collide`, run on the accepted proof and the proof `NewPartSetFromData`
 builds for that index, returns two DIFFERENT inputs with the SAME hash. -/
-theorem accepted_bytes_or_collision (H : Bytes → Bytes) {m : Nat} (hH : FixedLen H m) (hm : 0 < m)
+theorem accepted_bytes_or_collision (H : Bytes → Bytes) {m : Nat} (hH : FixedLen H m)
     (data : Bytes) (ps : Nat) (s : PartSet) (p : Part)
     (hhdr : s.header = headerOf H data ps) (hacc : (addPart H s p).1 = .added true) :
     p.bytes = slice data ps p.index.toNat ∨
@@ -295,13 +298,13 @@ theorem accepted_bytes_or_collision (H : Bytes → Bytes) {m : Nat} (hH : FixedL
   have hh : s.hash = (headerOf H data ps).hash := congrArg Header.hash hhdr
   rw [ht] at h1 h4
   rw [hh] at h5
-  exact verified_bytes_or_collision H hH hm data ps p p.index.toNat (by omega)
+  exact verified_bytes_or_collision H hH data ps p p.index.toNat (by omega)
     (by rw [h3]; omega) h4 h5
 
 /-- Adversarial arrival: feed ANY sequence of parts (corrupted, duplicated, reordered, forged) to
 the set created from the block's header.  If the set ends complete, it reads back exactly the
 block — or a collision of `H` exists (obtained as above from a stored proof). -/
-theorem adversarial_reassembly (H : Bytes → Bytes) {m : Nat} (hH : FixedLen H m) (hm : 0 < m)
+theorem adversarial_reassembly (H : Bytes → Bytes) {m : Nat} (hH : FixedLen H m)
     (data : Bytes) (ps : Nat) (hps : 0 < ps) (hd : data ≠ []) (seq : List Part) :
     let s := (addMany H (fromHeader (headerOf H data ps)) seq).2
     s.isComplete = true → s.reader = .ok data ∨ ∃ x y, x ≠ y ∧ H x = H y := by
@@ -362,7 +365,7 @@ theorem adversarial_reassembly (H : Bytes → Bytes) {m : Nat} (hH : FixedLen H 
     obtain ⟨_, hpi, hpt, hv⟩ := hinv.slot i q hq1
     rw [ht] at hpt hlt
     rw [hh] at hv
-    rcases verified_bytes_or_collision H hH hm data ps q i hlt hpi hpt hv with h | ⟨x, y, _, hxy⟩
+    rcases verified_bytes_or_collision H hH data ps q i hlt hpi hpt hv with h | ⟨x, y, _, hxy⟩
     · exact absurd h hq2
     · exact ⟨x, y, hxy.1, hxy.2⟩
 
@@ -385,7 +388,7 @@ theorem complete_when_all_offered (H : Bytes → Bytes) (data : Bytes) (ps : Nat
   simpa [partAt_index] using this
 
 /-- toy hash with fixed one-byte output: the hypotheses of (3) are satisfiable … -/
-example : FixedLen (fun x : Bytes => [x.foldl (· + ·) 0]) 1 ∧ 0 < 1 := ⟨fun _ => rfl, by decide⟩
+example : FixedLen (fun x : Bytes => [x.foldl (· + ·) 0]) 1 := fun _ => rfl
 
 /-- … and the collision disjunct is needed: with a constant hash, a set carrying the header of the
 one-part block `[1]` accepts the bytes `[2]` for index 0. -/
@@ -432,27 +435,22 @@ theorem count_and_bits (H : Bytes → Bytes) (h : Header) (seq : List Part) :
       split at h' <;> simp at h'
     · exact h'
 
-/-! ## finding: an EMPTY header hash disables proof verification -/
+/-! ## "a part whose content or proof does not match the header is rejected", stated directly -/
 
-/-- The statement's second clause read strictly: an accepted part carries a proof whose aunts
-have the shape of a path in a `total`-leaf tree and hash up to the header hash. -/
-def strict_reject_statement : Prop :=
-  ∀ (H : Bytes → Bytes) (s : PartSet) (p : Part),
-    (addPart H s p).1 = .added true → p.proof.verifyStrict H s.hash p.bytes = true
-
-/-- It holds whenever the header hash is non-empty (every header produced by
-`NewPartSetFromData`, and every header `BlockID.IsComplete` lets through). -/
-theorem strict_reject_partial (H : Bytes → Bytes) (s : PartSet) (p : Part) (hne : s.hash ≠ [])
+/-- An accepted part carries a proof whose aunts have exactly the shape of a path in a
+`total`-leaf tree and hash, from `leafHash(bytes)`, up to the header hash — for EVERY header,
+including one with an empty hash. -/
+theorem strict_reject (H : Bytes → Bytes) (s : PartSet) (p : Part)
     (h : (addPart H s p).1 = .added true) : p.proof.verifyStrict H s.hash p.bytes = true := by
-  rw [← verify_eq_strict H _ _ _ hne]
+  rw [← verify_eq_strict H]
   exact ((addPart_added_iff H s p).mp h).2.2.2.2.2
 
-/-- Missing for the full statement: `NewPartSetFromHeader({Total: 2, Hash: nil})` accepts a part
-for index 0 with NO aunts (`computeHashFromAunts` returns nil, `bytes.Equal(nil, nil)`). -/
-theorem strict_reject_counterexample : ¬ strict_reject_statement := by
-  intro h
-  have := h (fun _ => [7]) (fromHeader ⟨2, []⟩) ⟨0, [1], ⟨2, 0, [7], []⟩⟩ (by decide)
-  revert this
+/-- Regression witness of the former finding: `NewPartSetFromHeader({Total: 2, Hash: nil})` used to
+accept a part for index 0 with NO aunts (`computeHashFromAunts` returns nil, `bytes.Equal(nil, nil)`);
+since fix 96b4d2262f it is rejected with `ErrPartSetInvalidProof`, set unchanged. -/
+theorem nilroot_witness_rejected :
+    addPart (fun _ => [7]) (fromHeader ⟨2, []⟩) ⟨0, [1], ⟨2, 0, [7], []⟩⟩ =
+      (.errProof, fromHeader ⟨2, []⟩) := by
   decide
 
 end GnoVerif.C39
